@@ -14,6 +14,7 @@ def run(w, rep, tier):
     rep.rule("C08.ode", "closed form of strapdown_ins_propagate satisfies p' = v, v' = R a - g e3, q' = 1/2 q*(0,w) in dt, for unit q0 (modulo |q|=1), half angles unified")
     rep.rule("C08.init", "x1(dt = 0) = x0 with the series limits at 0")
     rep.rule("C08.regular", "constant propagation of omega_b = 0 and of dt = 0 through the generated expression: no division by zero, sqrt(0), acos(+-1) on the selected if_else path")
+    rep.rule("C08.series", "every series coefficient of the mixed exponential is read from the table that matches its argument (squared table <-> theta^2, even formula)")
     rep.rule("C08.norm", "|q1|^2 = 1 for unit q0")
     rep.rule("C08.sig", "Function signature: inputs (x0[10], a_b[3], omega_b[3], g, dt), one output x1[10]")
     rdd2 = w.mod("cyecca.models.rdd2")
@@ -36,7 +37,22 @@ def run(w, rep, tier):
     if ok2 and ok:
         verdict(rep, "C08.API", "element-level exp_mixed = group-level exp_mixed on the same element", w.param(v2), w.param(v), (), w.method_where(X0, "exp_mixed")[:2],
                 "element sugar does not forward to the group operation with itself as X0")
-    ok, eqs = guarded(w, rep, "C08.API", "derive_strapdown_ins_propagation()", lambda: w.callf(rdd2["derive_strapdown_ins_propagation"]))
+    uses = []
+
+    def shook(node, module, fn, arg):
+        sf = w.fe.module_file(module) if module else None
+        chain = list(w.it.stack)
+        uses.append((chain[-1][0] if chain else "<module>", sf.rel if sf else (module or "?"), getattr(node, "lineno", 0), fn.key, fn.squared, arg))
+    w.it.series_hook = shook
+    try:
+        ok, eqs = guarded(w, rep, "C08.API", "derive_strapdown_ins_propagation()", lambda: w.callf(rdd2["derive_strapdown_ins_propagation"]))
+    finally:
+        w.it.series_hook = None
+    # the coefficients of the closed-form N block: right table for the kind of argument (rule shared with C06.consumers;
+    # seeded C08-6 read C3 from the plain table with theta^2, same key in both tables)
+    from .c06 import check_series_consumers
+    check_series_consumers(w, rep, uses, "C08.series")
+    rep.floor("C08.series", 5)
     if not ok:
         return
     f = eqs.get("strapdown_ins_propagate") if isinstance(eqs, dict) else None
